@@ -79,7 +79,7 @@ def make(cls, target, comp, rnd):
 
 def observe(serde, comp, decomp, inner_serde, value, compressed):
     ev = {"e": "rt", "raised": "none", "outtype": "other", "flags": 0, "n": 0, "outlen": 0, "decok": False, "rawok": False,
-          "eq": False, "ty": False, "compressed_serde": compressed}
+          "eq": False, "ty": False, "eq2": True, "compressed_serde": compressed}
     try:
         out, flags = serde.serialize(b"key", value)
         inner, _ = inner_serde.serialize(b"key", value)
@@ -111,6 +111,22 @@ def observe(serde, comp, decomp, inner_serde, value, compressed):
     if isinstance(value, range):
         ev["eq"] = list(back) == list(value) if isinstance(back, range) else False
     ev["ty"] = type(back) is type(value)
+    # the caller owns what it got: after it has changed its copy, reading the same stored item again gives the stored value
+    import copy
+    try:
+        pristine = copy.deepcopy(value)
+        if isinstance(back, list):
+            back.append("caller-wrote-this")
+        elif isinstance(back, dict):
+            back["caller-wrote-this"] = 1
+        elif isinstance(back, set):
+            back.add("caller-wrote-this")
+        elif isinstance(back, bytearray):
+            back.extend(b"!")
+        back2 = serde.deserialize(b"key", outb, flags)
+        ev["eq2"] = bool(back2 == pristine) if not isinstance(value, range) else list(back2) == list(value)
+    except Exception:   # noqa
+        ev["eq2"] = False
     return ev
 
 
